@@ -98,6 +98,9 @@ type reqSpec struct {
 	Clen  int    `json:"clen"`
 	Clh   string `json:"clh"`
 	Conds []int  `json:"conds"`
+	// CPanic: conditions that PANIC for this request (they are not among Conds: a condition that panics has not
+	// returned true)
+	CPanic []int `json:"cpanic"`
 	// outside the specification's string projection (non-UTF-8, very long, ...): only totality is judged;
 	// Path then holds the percent-escaped form, Raw the bytes that are sent
 	Opaque bool   `json:"opaque"`
@@ -165,6 +168,11 @@ func condHeader(conds []int) string {
 func condFn(k int) restful.RouteSelectionConditionFunction {
 	needle := fmt.Sprint(k)
 	return func(r *http.Request) bool {
+		for _, p := range strings.Split(r.Header.Get("X-Cond-Panic"), ",") {
+			if strings.TrimSpace(p) == needle {
+				panic("condition " + needle + " panics for this request")
+			}
+		}
 		for _, p := range strings.Split(r.Header.Get("X-Cond"), ",") {
 			if strings.TrimSpace(p) == needle {
 				return true
